@@ -5,6 +5,7 @@ The bare branch calls the instruction parser with (own_instr = false, bark), the
 any name that has a bare form.
 -/
 import O2oModel.Expand
+import O2oModel.Lemmas.Grouping
 namespace O2o
 
 /-- instructions with a bare form, as registered by `proc_macro_derive(o2o, attributes(..))` -/
@@ -89,6 +90,44 @@ theorem C13_bare_tokens (b : Back) (path : TS) (ts : TS) : bareAttrTokens b ⟨p
 
 theorem C13_bare_tokens_path (b : Back) (path : TS) : bareAttrTokens b ⟨path, .path⟩ = .ok [] := by
   cases b <;> rfl
+
+theorem typeInstrNames_not_keyword : [Back.syn1, Back.syn2].all (fun b => typeInstrNames.all fun n => !isKeyword b n) = true := by decide
+theorem memberInstrNames_not_keyword : [Back.syn1, Back.syn2].all (fun b => memberInstrNames.all fun n => !isKeyword b n) = true := by decide
+
+theorem allResults_congr {α : Type} (f g : String → TS → Except PErr α) (items : List (String × Option TS))
+    (h : ∀ e ∈ items, f e.1 (e.2.getD []) = g e.1 (e.2.getD [])) : allResults f items = allResults g items := by
+  induction items with
+  | nil => rfl
+  | cons e rest ih =>
+    rw [allResults, allResults, elemResult, elemResult, h e List.mem_cons_self, ih (fun e' he => h e' (List.mem_cons_of_mem _ he))]
+
+/-- C13-2 (grouping, type level): a whole `#[o2o(i1(args1), i2, i3(args3), ..)]` list, of any length, parses to exactly
+    the list of instructions that the separate bare attributes `#[i1(args1)] #[i2] #[i3(args3)] ..` parse to, one by one
+    and in the same order (or to the error of the first element that fails) -/
+theorem C13_grouping_type (b : Back) (bark : Bool) (items : List (String × Option TS)) (h : ∀ e ∈ items, e.1 ∈ typeInstrNames) :
+    parse2 (parseTerminated (o2oElem b fun instr c => parseDataTypeInstruction b instr c true true)) (o2oTokens items)
+      = allResults (fun instr c => parseDataTypeInstruction b instr c false bark) items := by
+  have hk : ∀ e ∈ items, isKeyword b e.1 = false := by
+    intro e he
+    have := List.all_eq_true.mp (List.all_eq_true.mp typeInstrNames_not_keyword b (by cases b <;> simp)) e.1 (h e he)
+    simpa using this
+  rw [parse2_o2o_list b _ items hk]
+  exact allResults_congr _ _ items fun e he => (C13_type_instr b e.1 _ bark (h e he)).symm
+
+/-- C13-2 (grouping, member level) -/
+theorem C13_grouping_member (b : Back) (bark : Bool) (items : List (String × Option TS)) (h : ∀ e ∈ items, e.1 ∈ memberInstrNames) :
+    parse2 (parseTerminated (o2oElem b fun instr c => parseMemberInstruction b instr c true true)) (o2oTokens items)
+      = allResults (fun instr c => parseMemberInstruction b instr c false bark) items := by
+  have hk : ∀ e ∈ items, isKeyword b e.1 = false := by
+    intro e he
+    have := List.all_eq_true.mp (List.all_eq_true.mp memberInstrNames_not_keyword b (by cases b <;> simp)) e.1 (h e he)
+    simpa using this
+  rw [parse2_o2o_list b _ items hk]
+  exact allResults_congr _ _ items fun e he => (C13_member_instr b e.1 _ bark (h e he)).symm
+
+/-- non-vacuity: a three-element list with and without arguments -/
+example : o2oTokens [("map", some [.ident "X"]), ("owned_into", some [.ident "Y"]), ("allow_unknown", none)]
+    = [.ident "map", .group .paren [.ident "X"], p ',', .ident "owned_into", .group .paren [.ident "Y"], p ',', .ident "allow_unknown"] := rfl
 
 /-- non-vacuity: the real instruction names -/
 example : typeInstrNames.length = 27 ∧ memberInstrNames.length = 28 := by decide
